@@ -102,6 +102,7 @@ let hoptrow (o : int list option) : string = match o with None -> "N" | Some l -
 let o_split s = reply_total (ask ("split " ^ hex_of_chars s)) (List.map chars_of_hex)
 let o_split_commas s = reply_total (ask ("split_commas " ^ hex_of_chars s)) (List.map chars_of_hex)
 let o_isblank s = reply_total (ask ("isblank " ^ hex_of_chars s)) (fun p -> p = ["1"])
+let o_strip s = reply_total (ask ("strip " ^ hex_of_chars s)) (fun p -> match p with [] -> [] | w :: _ -> chars_of_hex w)
 let o_float s : int res = reply_res (ask ("float " ^ hex_of_chars s)) (fun p -> int_of_string (List.hd p))
 let o_int s : z res = reply_res (ask ("int " ^ hex_of_chars s)) (fun p -> z_of_string (List.hd p))
 let o_canon_int s = reply_total (ask ("canon_int " ^ hex_of_chars s)) (fun p -> p = ["1"])
@@ -142,7 +143,7 @@ let run (fmt : string) (lines : char list list) : nat res =
   | "pdffit" -> parse_pdffit o_split o_split_commas o_isblank o_float o_int o_lattice o_mulz lines
   | "discus" -> parse_discus o_split o_split_commas o_isblank o_float o_int o_set_lat_par_hist o_cell_pars o_lattice o_mulz lines
   | "xcfg" -> parse_xcfg o_split o_isblank o_float o_int o_first_word_from o_aux_match o_lat_base o_aux_assign lines
-  | "pdb" -> parse_pdb o_split o_isblank o_float o_set_lat_par o_scale3 o_set_xyz_cartn o_dot_scale lines
+  | "pdb" -> parse_pdb o_split o_isblank o_strip o_float o_set_lat_par o_scale3 o_set_xyz_cartn o_dot_scale lines
   | _ -> raise (Protocol ("unknown format " ^ fmt))
 
 let () =
